@@ -984,6 +984,8 @@ def rule_publish_success(ctx):
                 if (x, is_discr) in seen:
                     continue
                 seen.add((x, is_discr))
+                if x == 0 and not is_discr:
+                    found_switch = True         # handed back to the caller, who examines it - after the publication
                 for u in uses.get(x, []):
                     if u[0] == "copy":
                         work.append((u[1], is_discr))
